@@ -1021,9 +1021,14 @@ class Gridder(GeospatialGrid):
             subsegment_distance_fractions = np.divide(
                 subsegment_distances,
                 segment_distances_repeated,
-                # A zero-length segment (repeated point) has exactly one
-                # sub-segment, which gets the whole of the segment's quantities.
-                out=np.ones_like(subsegment_distances),
+                # A zero-length segment (repeated point) normally has exactly
+                # one sub-segment, which gets the whole of the segment's
+                # quantities. Two points closer than the distance calculation
+                # resolves can still lie either side of a grid line: the
+                # sub-segments then share the quantities equally.
+                out=np.repeat(
+                    1.0 / np.maximum(count_subsegments, 1), count_subsegments
+                ).astype(subsegment_distances.dtype),
                 where=segment_distances_repeated != 0,
             )
 
